@@ -1,0 +1,26 @@
+//go:build verif
+// +build verif
+
+package dict
+
+// Verification hooks (build tag "verif"). Add-only; not compiled into normal builds.
+
+type VerifNode struct {
+	Label    []byte
+	Children []*VerifNode
+}
+
+func verifDump(n *trieNode) *VerifNode {
+	r := &VerifNode{Label: append([]byte{}, n.label...)}
+	for _, c := range n.children {
+		r.Children = append(r.Children, verifDump(c))
+	}
+	return r
+}
+
+// VerifDump returns a deep copy of the dictionary trie.
+func (td *Dict) VerifDump() *VerifNode {
+	td.m.RLock()
+	defer td.m.RUnlock()
+	return verifDump(td.root)
+}
